@@ -74,7 +74,7 @@ def tables():
 
 
 TABLE_ALLOWS_OTHER = {"default": False, "overrides": False, "grandparents": True, "userfunc": False, "otherlinks": True,
-                      "multi": False}
+                      "multi": False, "incremental": False}
 
 
 def nearest(cls, table):
@@ -98,13 +98,36 @@ def floors(ctx):
     return {"evaluations": 1000 if q else 10000, "relation_lines_checked": 3000 if q else 30000,
             "graphs_with_selfloop": 50, "graphs_with_parallel": 50, "graphs_with_mixed_kinds": 50,
             "links_leaving_universe": 50, "empty_universe": 3, "isolated_members": 100,
-            "subclass_resolved_via_ancestor": 100, "multiple_inheritance_members": 50}
+            "subclass_resolved_via_ancestor": 100, "multiple_inheritance_members": 50,
+            "renders_after_table_was_extended": 100}
+
+
+INCREMENTAL_ADDS = {
+    # entries the user adds to the SAME table object between two renders
+    zoo.VSub: {"type": "class", "show_attrs": ["idx"], "title_format": "sub_{idx}"},
+    zoo.VPlain: {"type": "entity", "show_attrs": ["idx"], "title_format": "plain_{idx}"},
+    zoo.DSub: {"v1side": "o", "v2side": ">>"},
+    zoo.USub: {"v1side": "#", "v2side": "#"},
+}
 
 
 def run_case(ctx, spec, tname):
     g = graphs.build(spec)
-    table = tables()[tname]
-    ref = tables()[tname]  # the renderer may rewrite its own copy (show_attrs is compiled in place)
+    if tname == "incremental":
+        # the user renders with a small table, then configures intermediate classes in the same table object and
+        # renders again; the second rendering must follow the table as the user wrote it
+        base_v = {"type": "object", "show_attrs": ["idx"], "title_format": "{idx}"}
+        table = {Vertex: dict(base_v), DirectedEdge: {"v1side": "", "v2side": ">"}, UnDirectedEdge: {"v1side": "", "v2side": ""}}
+        ref = {Vertex: dict(base_v), DirectedEdge: {"v1side": "", "v2side": ">"}, UnDirectedEdge: {"v1side": "", "v2side": ""}}
+        first = oracles.outcome(plantuml.render_to_plantuml_src, g.uni, table)
+        if first[0] == "ok":
+            for k, v in INCREMENTAL_ADDS.items():
+                table[k] = dict(v)
+                ref[k] = dict(v)
+            ctx.count("renders_after_table_was_extended")
+    else:
+        table = tables()[tname]
+        ref = tables()[tname]  # the renderer may rewrite its own copy (show_attrs is compiled in place)
     case = {"spec": spec, "table": tname}
     res = oracles.outcome(plantuml.render_to_plantuml_src, g.uni, table)
     ctx.evaluated()
